@@ -95,6 +95,12 @@ Cases ==
           k1 \in One("c1"),
           m \in {CASE mo = "none" -> <<>> [] mo = "xA" -> <<Attr("x", "A", "no")>> [] mo = "c1" -> <<Attr("c1", "K1", "no")>>
                    [] mo = "yA" -> <<Attr("y", "A", "no")>> : mo \in ModeOpts}}
+    \* a robot without components: its autonomous modes are injected (and checked) all the same
+    \cup {[order |-> <<>>, robot |-> r @@ [am_y |-> ay], clslvl |-> c, shadow |-> FALSE,
+           comp |-> [c1 |-> [attrs |-> <<>>, ctor |-> <<>>], c2 |-> [attrs |-> <<>>, ctor |-> <<>>]], mode |-> m, same |-> FALSE]
+        : r \in RobotMaps, ay \in {"missing", "A"}, c \in ClsLvl,
+          m \in {CASE mo = "none" -> <<>> [] mo = "xA" -> <<Attr("x", "A", "no")>> [] mo = "c1" -> <<Attr("c1", "K1", "no")>>
+                   [] mo = "yA" -> <<Attr("y", "A", "no")>> : mo \in ModeOpts}}
 Init == case \in Cases
 Spec == Init /\ [][UNCHANGED case]_case
 
